@@ -1148,6 +1148,23 @@ class MiniInt:
         if name == "count" and len(a) == 3:
             v = self.expr(a[2], env, depth)
             return sum(1 for e_ in elems if e_ == v)
+        if name == "accumulate" and len(a) == 4:
+            # std::accumulate(first, last, init, op): a left fold with the binary lambda
+            acc = self.expr(a[2], env, depth)
+            h = self._lambda_of(a[3])
+            if h is None or len(h.params) != 2:
+                raise AnalysisBroken("MiniInt: the operation of accumulate is not a binary lambda of this function")
+            body = [x for x in h.roots if x is not None and x["k"] == "CompoundStmt"]
+            for e_ in elems:
+                env2 = dict(env)
+                env2[h.params[0]["declId"]] = acc
+                env2[h.params[1]["declId"]] = e_
+                try:
+                    self.run(kids(body[-1]), env2, depth + 1)
+                    raise AnalysisBroken("MiniInt: the operation of accumulate returns nothing")
+                except _CaseReturn as r_:
+                    acc = r_.node
+            return acc
         h = self._lambda_of(a[2])
         if h is None:
             raise AnalysisBroken("MiniInt: the predicate of %s is not a lambda of this function" % name)
@@ -1251,6 +1268,11 @@ class MiniInt:
             raise CaseThrow(render(n)[:80])
         if k == "CallExpr" and (n.get("callee") or "").split("::")[-1] in ("any_of", "all_of", "none_of", "count_if", "count") and len(call_args(n)) == 3:
             return self._algorithm(n, env, depth)
+        if k == "CallExpr" and (n.get("callee") or "").split("::")[-1] == "accumulate" and len(call_args(n)) == 4:
+            return self._algorithm(n, env, depth)
+        if k == "CallExpr" and (n.get("callee") or "") in ("std::min", "std::max") and len(call_args(n)) == 2:
+            x_, y_ = self.expr(call_args(n)[0], env, depth), self.expr(call_args(n)[1], env, depth)
+            return min(x_, y_) if n["callee"].endswith("min") else max(x_, y_)
         if k in ("CallExpr", "CXXMemberCallExpr") and depth < self.max_depth:
             g = getattr(self.F, "_by_id", {}).get(n.get("calleeId"))
             if g is not None and g.roots:
